@@ -80,7 +80,7 @@ type leafRef struct {
 	idx  []int
 }
 
-var skipLeaf = map[string]bool{"Name": true, "Type": true, "Metadatas": true, "LocalPort": true}
+var skipLeaf = map[string]bool{"Name": true, "Type": true, "LocalPort": true}
 
 func collectLeaves(t reflect.Type, prefix string, idx []int, out *[]leafRef) {
 	for i := 0; i < t.NumField(); i++ {
@@ -171,7 +171,6 @@ func buildCfg(s pspec) v1.ProxyConfigurer {
 	b.Name = fmt.Sprintf("p%d", s.name)
 	b.Type = typeNames[s.typ]
 	b.LocalIP = "127.0.19.250"
-	b.Metadatas = map[string]string{"v": strconv.Itoa(s.val())}
 	if s.hc {
 		b.HealthCheck = v1.HealthCheckConfig{Type: "tcp", IntervalSeconds: 1, TimeoutSeconds: 1, MaxFailed: 1}
 		b.LocalPort = closedPort
@@ -235,11 +234,8 @@ func (t *recTransport) Send(m msg.Message) error {
 	defer t.mu.Unlock()
 	switch x := m.(type) {
 	case *msg.NewProxy:
-		v, err := strconv.Atoi(x.Metas["v"])
-		if err != nil {
-			v = -1
-		}
-		t.msgs = append(t.msgs, [3]int{1, nameNum(x.ProxyName), v})
+		// which configuration object the wrapper holds is observed through the status rows
+		t.msgs = append(t.msgs, [3]int{1, nameNum(x.ProxyName), 0})
 	case *msg.CloseProxy:
 		t.msgs = append(t.msgs, [3]int{2, nameNum(x.ProxyName), 0})
 	default:
@@ -306,9 +302,10 @@ type rstep struct {
 }
 
 type robs struct {
-	msgs   [][3]int
-	result int
-	status [][5]int // name id phase haserr val
+	msgs    [][3]int
+	result  int
+	status  [][5]int // name id phase haserr val
+	undead  []string // wrappers that left the table but do not report phase closed
 }
 
 const (
@@ -383,6 +380,18 @@ func (r *rrun) observe(result int) robs {
 		o.status = append(o.status, [5]int{nameNum(st.Name), id, ph, he, v})
 	}
 	sort.Slice(o.status, func(i, j int) bool { return o.status[i][0] < o.status[j][0] })
+	live := map[*proxy.Wrapper]bool{}
+	for _, w := range ws {
+		live[w] = true
+	}
+	for w, id := range r.ids {
+		if !live[w] {
+			if st := w.GetStatus(); st.Phase != proxy.ProxyPhaseClosed {
+				o.undead = append(o.undead, fmt.Sprintf("wrapper %d of %s reports %q", id, st.Name, st.Phase))
+			}
+		}
+	}
+	sort.Strings(o.undead)
 	return o
 }
 
@@ -754,6 +763,10 @@ func reconViolations(steps []rstep, obs []robs) []map[string]string {
 				out = append(out, map[string]string{"key": "reconcile:workconn-accepted-while-not-running",
 					"what": fmt.Sprintf("step %d: work connection for p%d handed to the proxy although its phase was not running", i, s.name)})
 			}
+		}
+		for _, u := range obs[i].undead {
+			out = append(out, map[string]string{"key": "reconcile:stopped-wrapper-not-closed",
+				"what": fmt.Sprintf("step %d: %s after it was stopped and removed from the table", i, u)})
 		}
 		if s.op == opWork && obs[i].result == 7 {
 			out = append(out, map[string]string{"key": "reconcile:workconn-leaked",
